@@ -499,6 +499,13 @@ def _make_linked_adapter(
     # Handle parameters overriding whether an adapter is required
     front_required = front_parameters.pop("required", front_required)
     back_required = back_parameters.pop("required", back_required)
+    for parameters in (front_parameters, back_parameters):
+        if "anywhere" in parameters:
+            raise ValueError("'anywhere' cannot be used within linked adapters")
+        if "rightmost" in parameters:
+            raise ValueError(
+                "'rightmost' needs to be given for each adapter individually"
+            )
 
     front_adapter = front_spec.adapter_class()(
         front_spec.sequence, name="linked_front", **front_parameters
@@ -525,18 +532,23 @@ def _make_not_linked_adapter(
     aspec = AdapterSpecification.parse(spec, adapter_type)
     adapter_class: Type[Adapter] = aspec.adapter_class()
 
-    if aspec.parameters.pop("anywhere", False) and adapter_class in (
+    # search_parameters may contain parameters given for all adapters in a file
+    parameters = search_parameters.copy()
+    parameters.update(aspec.parameters)
+    if parameters.pop("anywhere", False) and adapter_class in (
         FrontAdapter,
         BackAdapter,
         RightmostFrontAdapter,
     ):
-        aspec.parameters["force_anywhere"] = True
-    if "required" in aspec.parameters:
+        parameters["force_anywhere"] = True
+    if "required" in parameters:
         raise ValueError(
             "'required' and 'optional' can only be used within linked adapters"
         )
-    parameters = search_parameters.copy()
-    parameters.update(aspec.parameters)
+    if "rightmost" in parameters:
+        raise ValueError(
+            "'rightmost' needs to be given for each adapter individually"
+        )
     return adapter_class(
         sequence=aspec.sequence,
         name=aspec.name if name is None else name,
